@@ -32,6 +32,22 @@ func c32(c *hx.Ctx) {
 	for i := 0; i < 6; i++ {
 		uni = append(uni, c.RandBytes(1+c.Rng.Intn(40)))
 	}
+	// long ids that share a common prefix of 4, 8, 16 or 31 bytes and differ later
+	// (peer ids of keys with equal leading bytes): orderings decided late in the string
+	for _, pl := range []int{4, 8, 16, 31} {
+		base := c.RandBytes(38)
+		for k := 0; k < 2; k++ {
+			v := append([]byte{}, base...)
+			for j := pl; j < len(v); j++ {
+				v[j] = byte(c.Rng.Intn(256))
+			}
+			uni = append(uni, v)
+		}
+		// also one that differs only in its last byte, and a proper prefix
+		v := append([]byte{}, base...)
+		v[len(v)-1] ^= 0x01
+		uni = append(uni, v, base, base[:pl])
+	}
 	pick := func() []byte { return uni[c.Rng.Intn(len(uni))] }
 	nSid := c.N / 2
 	for i := 0; i < nSid; i++ {
